@@ -28,6 +28,43 @@ BATCH_LOOP = (
     "            si_uploads.upload_secrets[share_number] = upload_secret\n"
     "            self._bucketwriters[bucket] = (storage_index, share_number)\n")
 
+
+# ---- C31.16 / C31.7 (iterator shape): write_share_data refactored to a chunk generator + consumer
+GEN_ANCHOR = "# Callable that takes offset and length, returns the data at that range.\nReadData = Callable[[int, int], bytes]\n"
+
+
+def _gen(loop="    offset = start\n    while offset < stop:\n", read="min(stop - offset, _CHUNK_SIZE)",
+         tail="        offset += len(data)\n"):
+    return (GEN_ANCHOR + "\n_CHUNK_SIZE = 65536\n\n\ndef _iter_body_chunks(content, start: int, stop: int):\n"
+            "    \"\"\"Yield (offset, data) for the bytes of [start, stop) of an uploaded body, in 64KiB pieces.\"\"\"\n"
+            + loop + "        data = content.read(" + read + ")\n"
+            "        assert data, \"uploaded data length doesn't match range\"\n        yield offset, data\n" + tail)
+
+
+LOOP_OLD = (
+    "        offset = content_range.start or 0\n"
+    "        # We don't support an unspecified stop for the range:\n        assert content_range.stop is not None\n"
+    "        # Missing body makes no sense:\n        assert request.content is not None\n"
+    "        remaining = content_range.stop - offset\n        finished = False\n\n"
+    "        while remaining > 0:\n            data = request.content.read(min(remaining, 65536))\n"
+    "            assert data, \"uploaded data length doesn't match range\"\n"
+    "            try:\n                finished = bucket.write(offset, data)\n"
+    "            except ConflictingWriteError:\n                request.setResponseCode(http.CONFLICT)\n"
+    "                return b\"\"\n            remaining -= len(data)\n            offset += len(data)\n")
+CHUNKS = "_iter_body_chunks(request.content, start, content_range.stop)"
+COMP = "bucket.write(offset, data) for offset, data in " + CHUNKS
+
+
+def _body(compute, start="content_range.start or 0"):
+    """write_share_data's data section with the completion flag computed by `compute` (statements at 12 spaces)."""
+    return ("        start = " + start + "\n        assert content_range.stop is not None\n"
+            "        assert request.content is not None\n\n        try:\n" + compute +
+            "        except ConflictingWriteError:\n            request.setResponseCode(http.CONFLICT)\n            return b\"\"\n")
+
+
+def IT(mid, compute, expect, gen=None, start="content_range.start or 0"):
+    return M(mid, S, GEN_ANCHOR, gen or _gen(), expect, edits=[(S, LOOP_OLD, _body(compute, start))])
+
 MUTANTS = [
     # ---- C31.1 route table == request table
     M("client-abort-url-typo", C,
@@ -628,6 +665,44 @@ MUTANTS = [
       edits=[(S, "            self._uploads.remove_write_bucket\n", "            self._uploads.remove_write_bucket_\n")]),
     M("vanish-sharefile-get-length", I, "    def get_length(self):\n        \"\"\"\n        Return the length of the data in the share, if we're reading.",
       "    def get_length_(self):\n        \"\"\"\n        Return the length of the data in the share, if we're reading.", "ANALYSIS-ERROR"),
+    # ---- C31.16: every piece of the body reaches <bucket>.write; completion = last write / eager or of all
+    IT("iter-any-over-generator-short-circuits", "            finished = any(" + COMP + ")\n", "C31.16"),
+    IT("iter-all-over-list", "            finished = all([" + COMP + "])\n", "C31.16"),
+    IT("iter-next-takes-first-write", "            finished = next(" + COMP + ")\n", "C31.16"),
+    IT("iter-first-result-decides", "            results = [" + COMP + "]\n            finished = results[0]\n", "C31.16"),
+    IT("iter-true-in-generator", "            finished = True in (" + COMP + ")\n", "C31.16"),
+    IT("iter-for-loop-breaks-when-finished",
+       "            finished = False\n            for offset, data in " + CHUNKS + ":\n"
+       "                finished = bucket.write(offset, data)\n                if finished:\n                    break\n", "C31.16"),
+    M("loop-write-short-circuited-by-flag", S, "                finished = bucket.write(offset, data)\n",
+      "                finished = finished or bucket.write(offset, data)\n", "C31.16"),
+    IT("benign-iter-any-over-list", "            finished = any([" + COMP + "])\n", None),
+    IT("benign-iter-last-of-list",
+       "            results = [" + COMP + "]\n            finished = results[-1] if results else False\n", None),
+    IT("benign-iter-max-over-generator", "            finished = max((" + COMP + "), default=False)\n", None),
+    IT("benign-iter-for-loop-keeps-last",
+       "            finished = False\n            for offset, data in " + CHUNKS + ":\n"
+       "                finished = bucket.write(offset, data)\n", None),
+    IT("benign-iter-generator-counts-remaining", "            finished = any([" + COMP + "])\n", None,
+       gen=_gen(loop="    offset = start\n    remaining = stop - offset\n    while remaining > 0:\n",
+                read="min(remaining, _CHUNK_SIZE)", tail="        remaining -= len(data)\n        offset += len(data)\n")),
+    M("benign-loop-write-or-flag", S, "                finished = bucket.write(offset, data)\n",
+      "                finished = bucket.write(offset, data) or finished\n", None),
+    IT("undecided-iter-filtered-chunks", "            finished = any([" + COMP + " if data])\n", "ANALYSIS-ERROR"),
+    # ---- C31.7 on the iterator shape
+    IT("iter-write-args-swapped", "            finished = any([bucket.write(data, offset) for offset, data in " + CHUNKS + "])\n", "C31.7"),
+    IT("iter-starts-at-zero", "            finished = any([" + COMP + "])\n", "C31.7", start="0"),
+    IT("iter-start-and-0", "            finished = any([" + COMP + "])\n", "C31.7", start="content_range.start and 0"),
+    IT("iter-generator-offset-not-advanced", "            finished = any([" + COMP + "])\n", "C31.7",
+       gen=_gen(tail="        offset += _CHUNK_SIZE\n")),
+    IT("iter-generator-drops-last-byte", "            finished = any([" + COMP + "])\n", "C31.7",
+       gen=_gen(loop="    offset = start\n    while offset < stop - 1:\n")),
+    IT("iter-generator-single-piece", "            finished = any([" + COMP + "])\n", "C31.7",
+       gen=_gen(loop="    offset = start\n    if offset < stop:\n")),
+    IT("iter-generator-stops-after-first-piece", "            finished = any([" + COMP + "])\n", "C31.7",
+       gen=_gen(tail="        offset += len(data)\n        if offset - start >= _CHUNK_SIZE:\n            return\n")),
+    IT("iter-stop-is-start", "            finished = any([bucket.write(offset, data) for offset, data in "
+       "_iter_body_chunks(request.content, start, content_range.start)])\n", "ANALYSIS-ERROR"),
     # ---- vanished anchors
     M("vanish-read-range", S, "def read_range(\n", "def read_range_(\n", "ANALYSIS-ERROR",
       edits=[(S, "return read_range(request, bucket.read, bucket.get_length())", "return read_range_(request, bucket.read, bucket.get_length())"),
